@@ -36,10 +36,7 @@ def names_case(draw):
     sel['limit'] = None
     if draw(st.integers(0, 3)) == 0 and sel['targets'] != '*':
         # duplicate a target (same name twice)
-        # (a duplicated grouping-key target under an explicit GROUP BY is rejected: C05 known finding)
-        cands = [t for t in sel['targets'] if sel['group_by'] is None or bql.is_aggregate(t[0])]
-        if cands:
-            sel['targets'] = list(sel['targets']) + [draw(st.sampled_from(cands))]
+        sel['targets'] = list(sel['targets']) + [draw(st.sampled_from(sel['targets']))]
     style = bql.Style(gen.Rnd(draw(st.randoms(use_true_random=False))), parens=draw(st.sampled_from([0.0, 0.05, 0.15])),
                       case=draw(st.booleans()), space=True, comments=draw(st.booleans()), uplus=False, numforms=False)
     ttexts = []
